@@ -100,7 +100,58 @@ def _values(ind):
     return ind.as_list()
 
 
+@st.composite
+def chain_form_cases(draw):
+    """a member that reads another member's output, source listed first, each given in its own form (object / dict /
+    settings): the Hexital must keep the given order whatever the forms, so the dependant equals the same two
+    indicators run in that order over one candle list"""
+    from hxv.props.c01 import chain_cases as base
+
+    case = draw(base(max_n=45))
+    for k in ("lifespan", "interlude", "tf", "fill", "ha", "tzoff", "late_down"):
+        case.pop(k, None)
+    case["forms"] = [draw(st.sampled_from(("dict", "settings", "object", "dict"))), draw(st.sampled_from(("object", "object", "dict", "settings")))]
+    case["kind"] = "chain-forms"
+    return case
+
+
+def _run_chain_forms(case) -> Result:
+    from hexital import Hexital
+
+    from hxv.props import twin
+
+    up, down = case["chain"]
+    rows = case["stream"]
+    labels = ["chain_forms", "forms:" + "+".join(case["forms"])]
+    try:
+        cs = mk_candles(rows)
+        build_indicator(up, candles=cs).calculate()
+        ref = build_indicator(down, candles=cs)
+        ref.calculate()
+        want = ref.as_list()
+    except Exception:
+        return Result([], False, labels + ["standalone_raises"])  # totality is C09
+    pre, chunks = twin.schedule(case)
+    try:
+        given = [_as_form({"cfg": c, "tf": None, "form": f}) for c, f in zip((up, down), case["forms"])]
+        hx = Hexital("c08", mk_candles(pre), given)
+        hx.calculate()
+        for ch in chunks:
+            hx.append(mk_candles(ch))
+        got = hx.indicator("DOWN").as_list()
+    except Exception as exc:
+        v = raises(exc, "hexital")
+        v.detail = f"chain {[gc.subject_of(c) for c in (up, down)]} given as {case['forms']}: " + v.detail
+        return Result([v], True, labels)
+    if not same(got, want):
+        k = next((i for i, (a, b) in enumerate(zip(got, want)) if not same(a, b)), 0)
+        return Result([Violation("member-readings-differ-from-standalone", "chain:" + "+".join(case["forms"]), f"chain {[gc.subject_of(c) for c in (up, down)]} given as {case['forms']}: dependant candle {k}: {got[k] if k < len(got) else None!r} vs run in the given order standalone {want[k] if k < len(want) else None!r}", "hexital")], True, labels)
+    return Result([], len(rows) >= 8, labels)
+
+
 def run_case(case) -> Result:
+    if case.get("kind") == "chain-forms":
+        return _run_chain_forms(case)
     from hexital import Hexital
 
     rows = case["stream"]
@@ -273,4 +324,5 @@ def shards(tier):
     n = 220 if tier == "quick" else 15000
     out = [Shard(f"gen-{i}", lambda: cases(), n, subject="hexital", cost=2) for i in range(15)]
     out.append(Shard("enum-settings", cases=_settings_enumerated, subject="hexital", exhaustive=True))
+    out += [Shard(f"chain-forms-{i}", lambda: chain_form_cases(), n, subject="hexital", cost=2) for i in range(2)]
     return out
